@@ -32,9 +32,21 @@ func init() {
 		Scen:   []ScenBudget{{"requests", 6000, 400000}},
 	})
 	addCheck(&CheckSpec{
+		Property: "C08", Level: "exploration",
+		Rule:   "events scenario: resources with every combination of present/absent/failing/no-change apply handlers and 0-3 listeners (registered before the handler, through Handler.Listeners, and after it; on root and mounted muxes); request handlers, With/WithResource callbacks and foreign goroutines run scripts interleaving change/add/remove/create/delete/reaccess/custom events with pre-responses and the reply, including invalid calls (wrong resource type, negative index, reserved or malformed names, empty change).",
+		Oracle: "one global log receives entries from apply handlers, from SimConn at publish time and from listeners, stamped with event sequence number and task; for each callback the entries made on its task between enter and exit must equal the predicted sequence (apply, publish, listeners in registration order with the call's values and the apply handler's return; nothing for failed/empty/invalid calls; pre-responses and reply in program order); no event publish or listener entry may lie outside its callback's window or on another task.",
+		Scen:   []ScenBudget{{"events", 6000, 400000}},
+	})
+	addCheck(&CheckSpec{
+		Property: "C09", Level: "exploration",
+		Rule:   "subs scenario: swarm over service name (empty, simple, dotted), ownership nil or explicit lists (overlapping, nested, duplicated, wildcarded, empty, foreign entries), handler-kind combinations, queue group default/empty/named; the service is served on the simulated broker, which enforces NATS subject rules at subscribe time; ResetAll from a foreign goroutine.",
+		Oracle: "for generated concrete request subjects inside, at the boundary of and outside every owned pattern and for each request type: a subject under >=1 owned pattern is routed to >=1 subscription, under exactly one owned pattern to exactly one (and gets exactly one response end to end), under none to none; every subscribed subject is a valid NATS subject; the first message of the epoch and every later system.reset list exactly the owned patterns of the ownership model (defaults: name and name.> per handler kind actually registered, > when the name is empty).",
+		Scen:   []ScenBudget{{"subs", 4000, 200000}},
+	})
+	addCheck(&CheckSpec{
 		Property: "C07", Level: "exploration",
 		Rule:   "transport monitor on every Publish of the requests and core scenarios: results/models/collections/event payloads that are nil, nested, need escaping or cannot be marshalled; every meta combination on HTTP and non-HTTP requests; marshal failures and publish errors as injected faults.",
 		Oracle: "independent validator written from the RES protocol text: subject is a publishable NATS subject of a documented form (reply inbox handed out by the peer, event.<rid>.<name>, system.reset, system.tokenReset, conn.<cid>.token); payload has the documented shape for its kind (response with exactly one of result/resource/error, error with string code and message, meta only for HTTP requests, pre-response timeout:\"<ms>\", per-event fields).",
-		Scen:   []ScenBudget{{"requests", 5000, 300000}, {"core", 3000, 200000}},
+		Scen:   []ScenBudget{{"requests", 5000, 300000}, {"core", 2000, 150000}, {"events", 2000, 150000}},
 	})
 }
